@@ -1,4 +1,45 @@
-use serde::{Serialize, Deserialize};
-#[derive(Serialize, Deserialize, Debug)]
-struct X { a: u32 }
-fn main(){ println!("{}", serde_json::to_string(&X{a:1}).unwrap()); }
+mod desc;
+mod engine;
+mod fmts;
+mod gen;
+mod props;
+mod strgen;
+
+use engine::*;
+use std::path::PathBuf;
+
+fn registry() -> Vec<&'static Prop> {
+    vec![&props::c01::PROP, &props::c04::PROP]
+}
+
+fn main() {
+    let args: Vec<String> = std::env::args().collect();
+    if args.len() < 3 {
+        eprintln!("usage: nvh <ID> quick|thorough [--stream NAME] | nvh <ID> --replay <file>");
+        std::process::exit(2);
+    }
+    install_panic_hook();
+    let root = std::env::var("VERIF_ROOT").map(PathBuf::from).unwrap_or_else(|_| PathBuf::from("/verif"));
+    let id = args[1].as_str();
+    let Some(prop) = registry().into_iter().find(|p| p.id == id) else {
+        eprintln!("unknown property {id}");
+        std::process::exit(2);
+    };
+    if args[2] == "--replay" {
+        let code = replay_file(prop, root, &args[3]);
+        std::process::exit(code);
+    }
+    let tier = match args[2].as_str() {
+        "quick" => Tier::Quick,
+        "thorough" => Tier::Thorough,
+        other => {
+            eprintln!("unknown tier {other}");
+            std::process::exit(2);
+        }
+    };
+    let seed = std::env::var("VERIF_SEED").ok().and_then(|s| s.parse::<i64>().ok()).unwrap_or(0) as u64;
+    let only = args.iter().position(|a| a == "--stream").and_then(|i| args.get(i + 1)).map(|s| s.as_str());
+    let code = run_property(prop, tier, seed, root, only);
+    println!("DONE property={id} tier={} seed={seed} exit={code}", tier.name());
+    std::process::exit(code);
+}
